@@ -16,6 +16,7 @@ import (
 	"time"
 
 	ds "github.com/ipfs/go-datastore"
+	dsq "github.com/ipfs/go-datastore/query"
 	logging "github.com/ipfs/go-log/v2"
 	"github.com/libp2p/go-libp2p/core/crypto"
 	"google.golang.org/protobuf/proto"
@@ -713,3 +714,69 @@ func zzFullNode(n int) (*zzEnv, *Manager, *zzDetExec, uint64, []*zzSlot, [][]byt
 	return e, m, ex, H, slots[1:], roots[1:]
 }
 
+// ---- small doubles for C11/C13 -------------------------------------------------
+
+// zzC13DA: one DA height (7) holding one blob; everything later is from the future.
+type zzC13DA struct {
+	zzDA
+	blob []byte
+}
+
+func (d *zzC13DA) GetIDs(ctx context.Context, height uint64, ns []byte) (*coreda.GetIDsResult, error) {
+	if height != 7 {
+		return nil, coreda.ErrHeightFromFuture
+	}
+	return &coreda.GetIDsResult{IDs: []coreda.ID{{0, 0, 0, 0, 0, 0, 0, 0, 1, 1}}}, nil
+}
+func (d *zzC13DA) Get(ctx context.Context, ids []coreda.ID, ns []byte) ([]coreda.Blob, error) {
+	return []coreda.Blob{d.blob}, nil
+}
+
+// zzSeen: the reaper's persistent seen-set (ds.Batching): a durable set of keys
+// with crash injection on Put.
+type zzSeen struct {
+	m        map[string]bool
+	puts     int
+	crashAt  int
+	failPut  bool
+	useCrash bool
+}
+
+func (s *zzSeen) Get(ctx context.Context, key ds.Key) ([]byte, error) {
+	if s.m[key.String()] {
+		return []byte{1}, nil
+	}
+	return nil, ds.ErrNotFound
+}
+func (s *zzSeen) Has(ctx context.Context, key ds.Key) (bool, error)    { return s.m[key.String()], nil }
+func (s *zzSeen) GetSize(ctx context.Context, key ds.Key) (int, error) { return 1, nil }
+func (s *zzSeen) Query(ctx context.Context, q dsq.Query) (dsq.Results, error) {
+	zzsym.Unsupported("zzSeen.Query")
+	return nil, nil
+}
+func (s *zzSeen) Put(ctx context.Context, key ds.Key, v []byte) error {
+	if s.failPut {
+		return zzErrInjected
+	}
+	if s.useCrash && s.puts >= s.crashAt {
+		return zzErrCrash
+	}
+	s.puts++
+	s.m[key.String()] = true
+	return nil
+}
+func (s *zzSeen) Delete(ctx context.Context, key ds.Key) error { delete(s.m, key.String()); return nil }
+func (s *zzSeen) Sync(ctx context.Context, p ds.Key) error     { return nil }
+func (s *zzSeen) Close() error                                 { return nil }
+func (s *zzSeen) Batch(ctx context.Context) (ds.Batch, error) {
+	zzsym.Unsupported("zzSeen.Batch")
+	return nil, nil
+}
+
+func (e *zzEnv) zzDataBlob(sl *zzSlot) []byte {
+	bz, _ := sl.data.MarshalBinary()
+	sig, _ := e.signer.Sign(bz)
+	sd := &types.SignedData{Data: *sl.data, Signature: sig, Signer: types.Signer{PubKey: e.pub, Address: e.addr}}
+	out, _ := sd.MarshalBinary()
+	return out
+}
